@@ -891,6 +891,50 @@ fn run_case(line: &str) -> String {
                 format!("{:x}", h)
             })
         },
+        // rt <fmt> <start> <count> <stride>: round trip of Rust's own renderings (shortest, 9/17 significant
+        // digits) of every bit pattern in the range through the shipped front-end + library
+        "rt" => {
+            let start = parse_u64(t[2]);
+            let count = parse_u64(t[3]);
+            let stride = parse_u64(t[4]);
+            let mut bad = 0u64;
+            let mut first = String::new();
+            let mut bits = start;
+            for _ in 0..count {
+                match t[1] {
+                    "f32" => {
+                        let x = f32::from_bits(bits as u32);
+                        if x.is_finite() && x >= 0.0 {
+                            for s in [format!("{:e}", x), format!("{:.8e}", x), format!("{}", x)].iter() {
+                                let (v, rest): (f32, &[u8]) = fe_simple::verif_entry::<f32>(s.as_bytes());
+                                if v.to_bits() != x.to_bits() || !rest.is_empty() {
+                                    bad += 1;
+                                    if first.is_empty() {
+                                        first = format!("{:x}:{}", bits, s);
+                                    }
+                                }
+                            }
+                        }
+                    },
+                    _ => {
+                        let x = f64::from_bits(bits);
+                        if x.is_finite() && x >= 0.0 {
+                            for s in [format!("{:e}", x), format!("{:.16e}", x), format!("{}", x)].iter() {
+                                let (v, rest): (f64, &[u8]) = fe_simple::verif_entry::<f64>(s.as_bytes());
+                                if v.to_bits() != x.to_bits() || !rest.is_empty() {
+                                    bad += 1;
+                                    if first.is_empty() {
+                                        first = format!("{:x}:{}", bits, s);
+                                    }
+                                }
+                            }
+                        }
+                    },
+                }
+                bits = bits.wrapping_add(stride);
+            }
+            format!("bad {} {}", bad, first)
+        },
         // e2f <fmt> <mant> <exp>
         "e2f" => {
             let fp = ExtendedFloat {
